@@ -129,7 +129,7 @@ def render_sdl(sx):
 
 # ----------------------------------------------------------------------------- databases
 
-def gen_db(rnd, sx, size=None):
+def gen_db(rnd, sx, size=None, sparse=False):
     """An instance conforming to the schema: single => <=1 value, required => >=1,
     exclusive => no value shared between (object, slot)s of that pointer, multi links are
     sets.  Returns None when `required` cannot be satisfied (then the type is left empty)."""
@@ -168,7 +168,7 @@ def gen_db(rnd, sx, size=None):
                     if p['multi'] and p['req']:
                         lo = 1
                     n = rnd.randint(lo, max(lo, hi))
-                    if rnd.random() < 0.25:
+                    if rnd.random() < (0.75 if sparse else 0.25):
                         n = lo
                     vals = []
                     for _ in range(n):
@@ -235,6 +235,7 @@ PRIMS = {
     'or':   ((S_, S_), S_, ('bin', 'or')),
     'not':  ((S_,), S_, ('pre', 'not')),
     'opteq': ((O_, O_), S_, ('bin', '?=')),
+    'optneq': ((O_, O_), S_, ('bin', '?!=')),
     'in':   ((S_, A_), S_, ('bin', 'in')),
     'count': ((A_,), S_, ('fn', 'count')),
     'sum':  ((A_,), S_, ('fn', 'sum')),
@@ -654,6 +655,14 @@ class Gen:
         """predicate over subject x; inside it no partial path may refer to an outer shape"""
         rnd = self.rnd
         self.cur_partial = x if partial else None
+        if ty[0] == 'o' and rnd.random() < 0.18:
+            a = self.opt_atom(x, ty, env, d, x if partial else None)
+            if a is not None:
+                if rnd.random() < 0.25:
+                    e2 = self.excl_atom(x, ty, env, d)
+                    if e2 is not None:
+                        a = ['call', rnd.choice(('and', 'or')), a, e2]
+                return a
         if ty[0] == 'o' and rnd.random() < 0.75:
             atoms = []
             for _ in range(rnd.choice((1, 1, 2))):
@@ -668,6 +677,50 @@ class Gen:
                     p = ['call', 'and', p, self.gen(('b',), env, min(d, 1), x if partial else None)]
                 return p
         return self.gen(('b',), env, d, x if partial else None)
+
+    def opt_atom(self, x, ty, env, d, ppa):
+        """x.p ?= rhs / x.p ?!= rhs  with p a (mostly optional, often exclusive) scalar pointer and a
+        right-hand side that is empty at run time for some or all objects"""
+        rnd = self.rnd
+        tid = ty[1]
+        cands = [p for p in self.sch.types[tid] if self.sch.ptrs[p]['kind'] != 'l' and self.path_ok(x, p)]
+        if not cands:
+            return None
+        pref = [p for p in cands if not self.sch.ptrs[p]['req'] and not self.sch.ptrs[p]['multi']]
+        best = [p for p in pref if self.sch.ptrs[p]['excl']]
+        pid = rnd.choice(best) if best and rnd.random() < 0.6 else rnd.choice(pref or cands)
+        self.used.add((x, pid))
+        pty = self.sch.ptr_type(pid)
+        lhs = ['ptr', ['var', x], pid]
+        r = rnd.random()
+        rhs = None
+        if r < 0.4:
+            rhs = ['empty', pty[0]]
+        elif r < 0.6:
+            # the object's own other optional pointer of the same kind
+            others = [p for p in self.sch.types[tid] if p != pid and self.sch.ptr_type(p) == pty
+                      and not self.sch.ptrs[p]['multi'] and self.path_ok(x, p)]
+            if others:
+                p2 = rnd.choice(others)
+                self.used.add((x, p2))
+                rhs = ['ptr', ['var', x], p2]
+        elif r < 0.75:
+            # an outer variable's optional pointer
+            for y, yt, k in env:
+                if y != x and yt[0] == 'o' and k != 'shape':
+                    ps = [p for p in self.sch.types[yt[1]] if self.sch.ptr_type(p) == pty
+                          and not self.sch.ptrs[p]['multi'] and self.path_ok(y, p)]
+                    if ps:
+                        p2 = rnd.choice(ps)
+                        self.used.add((y, p2))
+                        rhs = ['ptr', ['var', y], p2]
+                        break
+        if rhs is None:
+            rhs = self.gen(pty, [v for v in env if v[0] != x], min(d, 1), ppa)
+            if rnd.random() < 0.6:
+                rhs = ['limit', rhs, 1]
+        op = rnd.choice(('opteq', 'opteq', 'opteq', 'optneq'))
+        return ['call', op, rhs, lhs] if rnd.random() < 0.25 else ['call', op, lhs, rhs]
 
     def excl_atom(self, x, ty, env, d):
         rnd = self.rnd
@@ -824,10 +877,9 @@ class Gen:
         return ['call', 'in', self.gen(t, env, d, pa), self.gen(t, env, d, pa)]
 
     def p_opteq(self, ty, env, d, pa):
-        # toy_eval_model's `?=` is only right when neither operand is multi: keep them single
+        # the harness makes toy_eval_model's `?=` / `?!=` exact on optional and multi operands
         t = (self.rnd.choice('is'),)
-        one = lambda e: e if e[0] in ('var', 'empty') or (e[0] == 'lit' and len(e) == 2) else ['limit', e, 1]
-        return ['call', 'opteq', one(self.gen(t, env, d, pa)), one(self.gen(t, env, d, pa))]
+        return ['call', self.rnd.choice(('opteq', 'opteq', 'optneq')), self.gen(t, env, d, pa), self.gen(t, env, d, pa)]
 
     def p_anyall(self, ty, env, d, pa):
         return ['call', self.rnd.choice(('any', 'all')), self.gen(ty, env, d, pa)]
